@@ -26,7 +26,7 @@ RULE = ("history + executable model: a pool of live points (several scalings, ne
         "representation state of the operand) and histories in which a mutating path (rescale, table build, precompute) preceded a compared operation")
 ASSUMPTIONS = ["reference arithmetic / RFC 6979 / SEC1 encoders (vf/ref)", "pickle and copy are trusted",
                "walks on curves of odd order only (2-torsion conflation is the C06 known finding)"]
-REQUIRED = {"quick": ["step", "invariant", "sweep", "eq_laws", "pickle", "after.scale_rewrite", "after.table_built", "after.precompute_swap",
+REQUIRED = {"quick": ["twin_keys", "cross_curve", "step", "invariant", "sweep", "eq_laws", "pickle", "after.scale_rewrite", "after.table_built", "after.precompute_swap",
                       "seq.exhaustive", "key.sign", "key.verify", "key.serialise"]}
 EXHAUSTIVE = {"quick": ["all sequences of length <= 3 over 14 operations on two objects of one toy curve"],
               "thorough": ["all sequences of length <= 4 over 14 operations on two objects, on 3 toy curves"]}
